@@ -95,7 +95,7 @@ def explore(tier, seed, res=None, replay=None):
         for _ in range(n_cases):
             cases.append((None, len(cases)))
     open_ids = {k["id"] for k in known_findings("C06")}
-    reqs_spec, reqs_model, owners = [], [], []
+    reqs_spec, reqs_model, reqs_pipe, owners = [], [], [], []
     for f, path in cases:
         r = rng_for(seed, "c06", path)
         df = designs.gen_frame(r)
@@ -120,12 +120,24 @@ def explore(tier, seed, res=None, replay=None):
                           "names": req["names"],
                           "checks": [{k: c[k] for k in ("idx", "train", "new")} for c in checks]})
         reqs_model.append(req)
+        # the whole pipeline in Lean on formula + data alone, training and prediction
+        reqs_pipe.append({"op": "pipeline", "formula": formula, "frame": designs.frame_json(df),
+                          "names": designs.names_json(designs.NAMES), "na_action": "drop",
+                          "new": req["new"]})
         owners.append((case, obs, checks))
         res.nontrivial.update((formula, tuple(idx)) for idx in sels[:4])
         if len(res.samples) < 5:
             res.samples.append({"formula": formula, "selection": sels[1]})
     spec = ask(reqs_spec)
     model = ask(reqs_model)
+    for (case, obs, _), po in zip(owners, ask(reqs_pipe)):
+        if "err" in po:
+            res.count("pipeline_skip:" + po["err"])
+            continue
+        res.count("pipeline_compared")
+        d = designs.compare(obs, po)
+        if d:
+            res.mismatches.append({"case": case, "diff": ["pipeline:" + x for x in d[:5]]})
     for (case, obs, checks), sp, mo in zip(owners, spec, model):
         model_ok = "err" not in mo
         diffs = designs.compare(obs, mo) if model_ok else None
